@@ -15,7 +15,9 @@ CFG = {"oracles": ("C05", "C01"), "violations": ("C05",), "profile": "mixed", "s
 LEVEL_NOTE = ("theorems: every recorded state of the resolved-layer core (rename path) and of atomic_write satisfies the "
               "invariant; C05Copy: the copy fallback of shutil.move (files, links, trees of any depth) keeps the source "
               "whole or the destination whole in every crash state, under every fault oracle; a kill is modelled as "
-              "taking effect between two system calls (not power loss); C05Cmd (whole runs of trash-put, every crash state): put_run_crash_inv_home(_existing) / _volume(_top) / _custom - the entry is whole at its place or whole under files/, and whenever files/N exists info/N.trashinfo is a complete, conformant, parseable file; crash_states_of_first_use lists the states (mkdirs, empty info, written info, payload moved); first_use_empty_info_state (allowed: no payload yet), first_use_no_payload_without_info")
+              "taking effect between two system calls (not power loss); C05Cmd (whole runs of trash-put, every crash state): put_run_crash_inv_home(_existing) / _volume(_top) / _custom - the entry is whole at its place or whole under files/, and whenever files/N exists info/N.trashinfo is a complete, conformant, parseable file; crash_states_of_first_use lists the states (mkdirs, empty info, written info, payload moved); first_use_empty_info_state (allowed: no payload yet), first_use_no_payload_without_info; C05Seq: crash states compose over the argument list (crash_states_append, every oracle) and in EVERY crash "
+              "state of an N-argument everyday run EVERY argument is whole at its origin or whole under files/ with its parseable info "
+              "(n_args_crash_inv_home_partial)")
 RULE = ("seeded random put worlds (as C01) plus forced cross-volume worlds (home fallback onto another volume: copy, then "
         "delete, of files, links and directory trees); for each, every state before each mutating "
         "call and the final state is compared with the model's state sequence and checked against the Lean predicate "
